@@ -20,8 +20,8 @@ use std::collections::{BTreeMap, BTreeSet};
 use std::panic::{catch_unwind, AssertUnwindSafe};
 use vh::*;
 
-const PRINT_MAX: usize = 400;
-const AST_MAX: usize = 8000;
+const PRINT_MAX: usize = 3000;
+const AST_MAX: usize = 1000000;
 
 fn trunc(s: &str, n: usize) -> String {
     if s.chars().count() <= n {
